@@ -152,6 +152,8 @@ private:
 	bool create_service();
 	void op_recreate();
 	void op_repoint();
+	uint64_t accepted_adds = 0;
+	std::map<uint64_t, std::pair<int, uint64_t>> id_last_accept; // id -> (service generation, accepted-request counter)
 	uint64_t svc_birth_seq = 0;                 // event sequence number at which the current service object was created
 	bool frame_of_current_service(const Frame &f) const;
 	int generation = 0;                         // number of times the service object has been replaced
